@@ -35,6 +35,8 @@ def main():
     meta = {"property": pid, "variant": name, "source": "independent sub-agent given only the property text and a scratch worktree", "ran": []}
     touched = sorted(set(re.findall(r"^\+\+\+ b/(\S+)", open(patch).read(), re.M)))
     pkgs = sorted({"./" + os.path.dirname(f) + "/..." for f in touched})
+    if "--all-tests" in sys.argv:
+        pkgs = ["./..."]  # changes in a dependency: the whole module's existing tests must still pass
     meta["touched_files"] = touched
     meta["packages"] = pkgs
     wt = tempfile.mkdtemp(prefix="chk_")
@@ -66,7 +68,7 @@ def main():
             if any(p.endswith("main.go") for p in placed):
                 r = sh(["go", "run", "./zzdemo"], cwd=wt, env=ENV)
             else:
-                r = sh(["go", "test", "-vet=off", "-count=1"] + (["-race"] if "--race-demo" in sys.argv else []) + runarg + demo_pkgs, cwd=wt, env=ENV)
+                r = sh(["go", "test", "-vet=off", "-count=1"] + (["-race"] if "--race-demo" in sys.argv else []) + (["-tags", sys.argv[sys.argv.index("--demo-tags") + 1]] if "--demo-tags" in sys.argv else []) + runarg + demo_pkgs, cwd=wt, env=ENV)
             return r.returncode, r.stdout[-1500:]
         rc0, out0 = demo()
         meta["demo_without_change"] = "pass" if rc0 == 0 else "FAIL"
